@@ -195,9 +195,18 @@ func typeNameTokens(text string) map[string]int {
 		}
 		return tok
 	}
-	defined := map[string]bool{}
-	for _, m := range reTypeDefLine.FindAllStringSubmatch(text, -1) {
-		defined[norm(m[1])] = true
+	// identified (struct, opaque) types are their name; the name of any other
+	// type is an alias of its body, and the operand of a constant written
+	// `%T @g` takes the type of @g however it was spelled: such names are
+	// counted on type-definition and declaration lines only
+	defined, identified := map[string]bool{}, map[string]bool{}
+	for _, loc := range reTypeDefLine.FindAllStringSubmatchIndex(text, -1) {
+		name := norm(text[loc[2]:loc[3]])
+		defined[name] = true
+		rest := text[loc[1]:]
+		if strings.HasPrefix(rest, "{") || strings.HasPrefix(rest, "<{") || strings.HasPrefix(rest, "opaque") {
+			identified[name] = true
+		}
 	}
 	out := map[string]int{}
 	if len(defined) == 0 {
@@ -231,7 +240,7 @@ func typeNameTokens(text string) map[string]int {
 					j = len(line)
 				}
 				if c == '%' && j > i+1 {
-					if n := norm(line[i+1 : j]); defined[n] {
+					if n := norm(line[i+1 : j]); defined[n] && (identified[n] || line[0] != '@') {
 						out[n]++
 					}
 				}
